@@ -445,6 +445,7 @@ def finish(prop, args, mod, items, results, replay_bin, known, kmap, t0, seed):
             "inconclusive": inconclusive[:60],
             "inconclusive_count": len(inconclusive),
             "functions_encoded": sorted(funcs)[:400],
+            "slowest_items": [{"id": r["id"], "wall_s": round(r.get("wall_s", 0), 1), "paths": r.get("paths", 0)} for r in sorted(results, key=lambda r: -r.get("wall_s", 0))[:8]],
             "explanation": "states = symbolic paths explored (each a solver-characterised set of inputs); transitions = decision points whose feasible alternatives were decided by the SMT solver; traces_validated = path models re-executed on the native build of /repo with identical outcome and result",
         },
         "assumptions": getattr(mod, "ASSUMPTIONS", []) + [
